@@ -1,6 +1,8 @@
 package convert
 
 import (
+	"time"
+
 	"github.com/aptpod/iscp-go/internal/vf"
 	"github.com/aptpod/iscp-go/message"
 	autogen "github.com/aptpod/iscp-proto/gen/gogofast/iscp2/v1"
@@ -73,6 +75,70 @@ func zzC11aQoS() {
 		}
 	} else {
 		vf.Assert("undefined-wire-qos-rejected", err3 != nil)
+	}
+	vf.Reach("end")
+}
+
+func zzStrs(label string, n int) []*message.DataID {
+	k := vf.Choose(label+".n", n+2) // 0: nil, 1: empty, 2..: entries
+	if k == 0 {
+		return nil
+	}
+	out := []*message.DataID{}
+	for i := 0; i < k-1; i++ {
+		out = append(out, &message.DataID{Name: vf.Str(label + string(rune('0'+i)) + ".name"), Type: vf.Str(label + string(rune('0'+i)) + ".type")})
+	}
+	return out
+}
+
+func zzSameIDs(a, b []*message.DataID) bool {
+	if len(a) != len(b) {
+		return false
+	}
+	for i := range a {
+		if a[i] == nil || b[i] == nil || *a[i] != *b[i] {
+			return false
+		}
+	}
+	return true
+}
+
+// C11.b: converter round trip, UpstreamOpenRequest (durations at wire resolution).
+func zzC11bUpstreamOpenRequest() {
+	ack := vf.Dur("ack", 4000)     // milliseconds on the wire
+	exp := vf.Dur("expiry", 1<<22) // whole seconds on the wire
+	qos := message.QoS(vf.U8("qos"))
+	vf.Assume(vf.Defined(zzMsgPkg, "QoS", int64(qos)))
+	var ext *message.UpstreamOpenRequestExtensionFields
+	if vf.Choose("ext", 2) == 1 {
+		ext = &message.UpstreamOpenRequestExtensionFields{Persist: vf.Bool("persist")}
+	}
+	m := &message.UpstreamOpenRequest{RequestID: message.RequestID(vf.U32("reqid")), SessionID: vf.Str("session"), AckInterval: ack, ExpiryInterval: exp,
+		DataIDs: zzStrs("ids", 2), QoS: qos, ExtensionFields: ext}
+	pb, err := WireToProto(m)
+	vf.Assert("to-proto-ok", err == nil && pb != nil)
+	back, err2 := ProtoToWire(pb)
+	vf.Assert("to-wire-ok", err2 == nil)
+	g, ok := back.(*message.UpstreamOpenRequest)
+	vf.Assert("same-type", ok)
+	if !ok {
+		return
+	}
+	vf.Assert("request-id", g.RequestID == m.RequestID)
+	vf.Assert("session-id", g.SessionID == m.SessionID)
+	vf.Assert("qos", g.QoS == m.QoS)
+	// durations at wire resolution: the wire carries the whole number of units, and decoding gives
+	// exactly that many units back (so the round trip loses less than one unit)
+	w := pb.Message.(*autogen.Message_UpstreamOpenRequest).UpstreamOpenRequest
+	vf.Assert("ack-interval-whole-ms", w.AckInterval == uint32(ack/time.Millisecond))
+	vf.Assert("expiry-whole-seconds", w.ExpiryInterval == uint32(exp/time.Second))
+	vf.Assert("ack-interval-decoded", g.AckInterval == time.Duration(w.AckInterval)*time.Millisecond)
+	vf.Assert("expiry-decoded", g.ExpiryInterval == time.Duration(w.ExpiryInterval)*time.Second)
+	vf.Assert("data-ids", zzSameIDs(g.DataIDs, m.DataIDs))
+	if ext == nil {
+		vf.Assert("absent-extension-canonical", g.ExtensionFields == nil || !g.ExtensionFields.Persist)
+	} else {
+		vf.Assert("extension-kept", g.ExtensionFields != nil && g.ExtensionFields.Persist == ext.Persist)
 	}
 	vf.Reach("end")
 }
